@@ -414,7 +414,7 @@ func genHistory(g *hx.Gen, n int) []hOp {
 				h = g.Pick(hHosts)
 			}
 			if !strings.Contains(h, ":") {
-				h += g.Pick([]string{":443", ":80", ".:443"})
+				h += g.Pick([]string{":443", ":80", ".:443", "..:443", ".."})
 			}
 			ops = append(ops, hOp{kind: "connect", host: h, user: u})
 			continue
